@@ -169,6 +169,12 @@ def evaluate(prop, scns, variant, want_model=True):
                 problems.append(dict(kind='correspondence', key='correspondence', scn=s, text=d))
         if il and (nontriv(s, il) if nontriv else True):
             stats['nontrivial'].add(hashlib.sha256('\n'.join(s.lines).encode()).hexdigest())
+    # oracles that compare scenarios with each other (e.g. a history against the fresh-process baseline)
+    cross = getattr(prop, 'cross_oracle', None)
+    if cross:
+        byid = {s.id: s for s in scns}
+        for sid, key, text in cross(scns, impl):
+            problems.append(dict(kind='oracle', key=key, scn=byid[sid], text=text))
     # further instrumented runs of (a subset of) the same scenarios: sanitizers, valgrind, counting allocator
     for v in getattr(prop, 'EXTRA_VARIANTS', []):
         sel = [s for s in scns if prop.extra_select(s, v)]
